@@ -292,6 +292,16 @@ func Catalogue() []CatEntry {
 		var d T
 		return flat(z.Struct(z.Schema{"a": z.String()}).Parse(zjson.Decode(strings.NewReader(`{"a":`)), &d, eo...))
 	}})
+	es = append(es, CatEntry{Name: "zjson.null_body", NoTestOpts: true, Run: func(eo []z.ExecOption, o []z.TestOption) []*z.ZogIssue {
+		var d T
+		return flat(z.Struct(z.Schema{"a": z.String()}).Parse(zjson.Decode(strings.NewReader(`null`)), &d, eo...))
+	}})
+	es = append(es, CatEntry{Name: "zhttp.null_body", NoTestOpts: true, Run: func(eo []z.ExecOption, o []z.TestOption) []*z.ZogIssue {
+		var d *T
+		r, _ := http.NewRequest("PUT", "http://x/p", bytes.NewReader([]byte(" null ")))
+		r.Header.Set("Content-Type", "application/json; charset=utf-8")
+		return flat(z.Ptr(z.Struct(z.Schema{"a": z.String()})).Parse(zhttp.Request(r), &d, eo...))
+	}})
 	es = append(es, CatEntry{Name: "zhttp.invalid_form", NoTestOpts: true, Run: func(eo []z.ExecOption, o []z.TestOption) []*z.ZogIssue {
 		var d T
 		r, _ := http.NewRequest("POST", "http://x/p", bytes.NewReader([]byte("a=%zz")))
